@@ -273,6 +273,74 @@ theorem advClose_mirror (N : Nat) (A A' : List (List Bool)) (hm : Mirrored N A A
   rw [e] at this
   exact this.symm
 
+/-! ### what `pathLen` means: least number of links of a walk -/
+
+/-- `j` is reached from `i` by a walk of at most `k` links inside `0..N-1` -/
+inductive ReachLe (N : Nat) (A : List (List Bool)) (i : Nat) : Nat → Nat → Prop
+  | here (k : Nat) : i < N → ReachLe N A i i k
+  | step (u v k : Nat) : ReachLe N A i u k → v < N → Mat.at A u v = true → ReachLe N A i v (k + 1)
+
+theorem ReachLe.lt {N : Nat} {A : List (List Bool)} {i v k : Nat} (h : ReachLe N A i v k) :
+    v < N := by
+  cases h with
+  | here _ h => exact h
+  | step _ _ _ _ h _ => exact h
+
+theorem ReachLe.succ {N : Nat} {A : List (List Bool)} {i v k : Nat} (h : ReachLe N A i v k) :
+    ReachLe N A i v (k + 1) := by
+  induction h with
+  | here k hi => exact .here _ hi
+  | step u v k _ hv ha ih => exact .step u v _ ih hv ha
+
+theorem lvl_iff (N : Nat) (A : List (List Bool)) (i : Nat) (hi : i < N) :
+    ∀ k v, v < N → ((lvl N A i k).getD v false = true ↔ ReachLe N A i v k) := by
+  intro k
+  induction k with
+  | zero =>
+    intro v hv
+    simp only [lvl, lvl0]
+    rw [getD_map_range N _ v hv, beq_iff_eq]
+    constructor
+    · rintro rfl; exact .here 0 hi
+    · intro h; cases h; rfl
+  | succ k ih =>
+    intro v hv
+    simp only [lvl, grow]
+    rw [getD_map_range N _ v hv]
+    simp only [Bool.or_eq_true, List.any_eq_true, List.mem_range, Bool.and_eq_true]
+    constructor
+    · rintro (h | ⟨u, hu, h1, h2⟩)
+      · exact ((ih v hv).mp h).succ
+      · exact .step u v k ((ih u hu).mp h1) hv h2
+    · intro h
+      cases h with
+      | here _ _ => exact Or.inl ((ih i hi).mpr (.here k hi))
+      | step u _ _ hu _ ha => exact Or.inr ⟨u, hu.lt, (ih u hu.lt).mpr hu, ha⟩
+
+/-- **`pathLen` is the least number of links**: `some d` means a walk of `d` links exists
+and none with fewer; `none` means no walk with fewer than `N` links exists -/
+theorem pathLen_spec (N : Nat) (A : List (List Bool)) (i j : Nat) (hi : i < N) (hj : j < N) :
+    (∀ d, pathLen N A i j = some d →
+      d < N ∧ ReachLe N A i j d ∧ ∀ k, k < d → ¬ ReachLe N A i j k) ∧
+    (pathLen N A i j = none → ∀ k, k < N → ¬ ReachLe N A i j k) := by
+  constructor
+  · intro d h
+    simp only [pathLen] at h
+    rw [List.find?_range_eq_some] at h
+    obtain ⟨h1, h2, h3⟩ := h
+    rw [List.mem_range] at h2
+    refine ⟨h2, (lvl_iff N A i hi d j hj).mp h1, ?_⟩
+    intro k hk hr
+    have := h3 k hk
+    rw [(lvl_iff N A i hi k j hj).mpr hr] at this
+    exact absurd this (by simp)
+  · intro h k hk hr
+    simp only [pathLen] at h
+    rw [List.find?_range_eq_none] at h
+    have := h k hk
+    rw [(lvl_iff N A i hi k j hj).mpr hr] at this
+    exact absurd this (by simp)
+
 /-! ### float32: the rounded kernel under order faithfulness -/
 
 theorem getD_lt (t : List Rat) (k : Nat) (h : k < t.length) : t.getD k 0 = t[k] := by
